@@ -1,4 +1,6 @@
 import Heathcliff.Proofs.C18
+import Heathcliff.Proofs.GenMpRlk
+import Mathlib.Tactic.Choose
 
 /- C18 — multiparty protocols agree across parties and message orders, keep plaintexts.
    Property theorems only; helper lemmas are in Heathcliff/Proofs/C18.lean.
@@ -238,5 +240,307 @@ theorem final_decode_ckks (l : Level) (hs : l.scheme = .ckks) (sk : Array Int) (
   cases dotProductCtSk l sk ct with
   | error e => rfl
   | ok ph => simp [Except.map, Except.bind, decryptPolynomial, hs, pure, Except.pure]
+
+
+/-! ## the protocol functions GENERATED from src/multiparty/participant.rs (Gen/MpFns.lean, tools/rs2lean_mp.py)
+
+    Skeleton translation: polynomial buffers are values of an abstract type, the `polymod` kernels are the operations of `Ops`, the
+    samplers are draws from a tape whose entries carry the sampler's tag (`Tape`, `draw`): a theorem that gives the tape as
+    `(.cbd, e) :: rest` says that the function draws exactly ONE centred-binomial polynomial and leaves `rest`. -/
+
+/-- `sample_noise` = `noiseOf`: one centred-binomial draw, transformed, in BGV multiplied by t -/
+theorem gen_sample_noise (o : Ops α) (sch : Scheme) (t : Nat) (e : α) (rest : Tape α) :
+    GenMp.sample_noise o sch t true ((.cbd, e) :: rest) = (do let x ← noiseOf o sch t e; pure (x, rest)) :=
+  genmp_sample_noise o sch t e rest
+
+/-- `Participant::key_switch` (any ring operations): a 2-polynomial ciphertext, ONE noise draw; the fresh reveal object holds
+    `ksShare` = (s - s')·c1 + noise as own polynomial, one empty slot per participant -/
+theorem gen_key_switch (o : Ops α) (sch : Scheme) (t count pid : Nat) (ntt : Bool) (s s' c1 e : α) (rest : Tape α) :
+    GenMp.key_switch o sch t count pid 2 ntt s s' c1 ((.cbd, e) :: rest)
+      = (do let h ← ksShare o sch t ntt s s' c1 e; pure (Reveal.new count pid h, rest)) :=
+  genmp_key_switch o sch t count pid ntt s s' c1 e rest
+
+/-- `Participant::decrypt` (expanded seed, valid ciphertext of size 2) -/
+theorem gen_decrypt (o : Ops α) (sch : Scheme) (t count pid : Nat) (ntt : Bool) (s c1 e : α) (rest : Tape α) :
+    GenMp.decrypt o sch t count pid 2 false true ntt s c1 ((.cbd, e) :: rest)
+      = (do let h ← decShare o sch t ntt s c1 e; pure (Reveal.new count pid h, rest)) :=
+  genmp_decrypt o sch t count pid ntt s c1 e rest
+
+/-- `Participant::public_key_switch`: draws (ternary u, noise e0, noise e1) in this order; both reveal objects -/
+theorem gen_public_key_switch (o : Ops α) (sch : Scheme) (t count pid : Nat) (ntt : Bool) (s c1 p0 p1 u e0 e1 : α) (rest : Tape α) :
+    GenMp.public_key_switch o sch t count pid 2 ntt s c1 p0 p1 ((.ternary, u) :: (.cbd, e0) :: (.cbd, e1) :: rest)
+      = (do let h ← pksShare o sch t ntt s c1 p0 p1 u e0 e1
+            pure (Reveal.new count pid h.1, Reveal.new count pid h.2, rest)) :=
+  genmp_public_key_switch o sch t count pid ntt s c1 p0 p1 u e0 e1 rest
+
+/-- a ciphertext that does not have exactly two polynomials is refused by all three constructors -/
+theorem gen_constructors_refuse_size (o : Ops α) (sch : Scheme) (t count pid sz : Nat) (hsz : sz ≠ 2) (ntt cs vf : Bool)
+    (s s' c1 p0 p1 : α) (tape : Tape α) :
+    GenMp.key_switch o sch t count pid sz ntt s s' c1 tape = .error .refused ∧
+    GenMp.decrypt o sch t count pid sz cs vf ntt s c1 tape = .error .refused ∧
+    GenMp.public_key_switch o sch t count pid sz ntt s c1 p0 p1 tape = .error .refused := by
+  have h : (sz == 2) = false := by simpa using hsz
+  refine ⟨by simp [GenMp.key_switch, need, h, bind, Except.bind], ?_, by simp [GenMp.public_key_switch, need, h, bind, Except.bind]⟩
+  by_cases h2 : 2 ≤ sz <;> cases cs <;> cases vf <;>
+    simp [GenMp.decrypt, need, h, h2, bind, Except.bind, Gen.HE_CIPHERTEXT_SIZE_MIN]
+
+/-- `PolynomialRevelationProtocol::receive` / `send` / `finish` = the model (`receive` only overwrites the sender's slot, `send`
+    is the own polynomial whatever was received, `finish` = completeness assertion + sum in slot order) -/
+theorem gen_reveal (o : Ops α) (pa : α → α → R α) (p : Reveal α) (sender : Nat) (m : α) (rest : List α) :
+    GenMp.reveal_receive p sender (m :: rest) = (do let p' ← p.receive sender m; pure (p', rest)) ∧
+    (∀ p', p.receive sender m = .ok p' → GenMp.reveal_send p' = GenMp.reveal_send p) ∧
+    GenMp.reveal_finish o pa false p = p.finish o :=
+  ⟨genmp_reveal_receive p sender m rest, fun p' h => genmp_reveal_send_receive p sender m p' h, genmp_reveal_finish o pa p⟩
+
+/-- a whole run through the GENERATED functions (fresh object, the deliveries one by one through `receive`, `finish`) = `revealRun`:
+    so `finish_order_independent`, `finish_sum`, `all_parties_agree`, `finish_refuses_incomplete` are statements about them -/
+theorem gen_run (o : Ops α) (pa : α → α → R α) (count id : Nat) (own : α) (d : List (Nat × α)) :
+    (do let p ← genRecvAll (Reveal.new count id own) d; GenMp.reveal_finish o pa false p) = revealRun o count id own d :=
+  genmp_run o pa count id own d
+
+/-- the `finish` of the four protocol objects -/
+theorem gen_finish (o : Ops α) (pa : α → α → R α) (c0 c1 : α) (p q : Reveal α) :
+    GenMp.key_switch_finish o c0 c1 pa p = (do let h ← p.finish o; let c ← addToC0 o c0 h; pure (c, c1)) ∧
+    GenMp.decrypt_finish o c0 c1 pa p = (do let h ← p.finish o; addToC0 o c0 h) ∧
+    GenMp.public_key_switch_finish o c0 c1 pa p q
+      = (do let h0 ← p.finish o; let h1 ← q.finish o; let c ← addToC0 o c0 h0; pure (c, h1)) ∧
+    GenMp.public_key_finish o c0 c1 pa p = (do let h ← p.finish o; pure (h, c1)) :=
+  ⟨genmp_key_switch_finish o pa c0 c1 p, genmp_decrypt_finish o pa c0 c1 p, genmp_public_key_switch_finish o pa c0 c1 p q,
+   genmp_public_key_finish o pa c0 c1 p⟩
+
+/-- relinearisation key, constructor: ONE common uniform a_j per decomposition index j (all K-1 drawn from the common tape before
+    anything else), (u_j, e0_j, e1_j) from the own tape per index; pair j = `rlkRound1` with a_j and the gadget element w_j -/
+theorem gen_rlk_new (o : Ops α) (sch : Scheme) (t count pid K : Nat) (s : α) (w a u e0 e1 : Nat → α) (r : Nat → α × α)
+    (rc rs : Tape α) (hr : ∀ j, j < K - 1 → rlkRound1 o sch t s (a j) (u j) (e0 j) (e1 j) (w j) = .ok (r j)) :
+    GenMp.rlk_new o sch t count pid K s w
+        (tapeRem (fun j => [(.uniform, a j)]) rc (K - 1) 0)
+        (tapeRem (fun j => [(.ternary, u j), (.cbd, e0 j), (.cbd, e1 j)]) rs (K - 1) 0)
+      = .ok ((List.range (K - 1)).map (fun j => Reveal.new count pid (r j).1),
+             (List.range (K - 1)).map (fun j => Reveal.new count pid (r j).2),
+             (List.range (K - 1)).map (fun j => o.toNtt (u j)), rc, rs) :=
+  genmp_rlk_new o sch t count pid K s w a u e0 e1 r rc rs hr
+
+theorem gen_rlk_step2 (o : Ops α) (pa : α → α → R α) (sch : Scheme) (t count pid K : Nat) (s : α) (u e2 e3 H0 H1 d : Nat → α)
+    (R0 R1 : Nat → Reveal α) (r : Nat → α × α) (rs : Tape α)
+    (hf0 : ∀ j, j < K - 1 → (R0 j).finish o = .ok (H0 j)) (hf1 : ∀ j, j < K - 1 → (R1 j).finish o = .ok (H1 j))
+    (hd : ∀ j, j < K - 1 → o.sub (o.toNtt (u j)) s = .ok (d j))
+    (hr : ∀ j, j < K - 1 → rlkRound2 o sch t s (u j) (H0 j) (H1 j) (e2 j) (e3 j) = .ok (r j)) :
+    GenMp.rlk_step2 o sch t count pid K s pa ((List.range (K - 1)).map R0) ((List.range (K - 1)).map R1)
+        ((List.range (K - 1)).map (fun j => o.toNtt (u j)))
+        (tapeRem (fun j => [(.cbd, e2 j), (.cbd, e3 j)]) rs (K - 1) 0)
+      = .ok ((List.range (K - 1)).map (fun j => Reveal.new count pid (r j).1),
+             (List.range (K - 1)).map (fun j => Reveal.new count pid (r j).2),
+             (List.range (K - 1)).map d, (List.range (K - 1)).map H1, rs) :=
+  genmp_rlk_step2 o pa sch t count pid K s u e2 e3 H0 H1 d R0 R1 r rs hf0 hf1 hd hr
+
+theorem gen_rlk_finish (o : Ops α) (pa : α → α → R α) (K : Nat) (P0 P1 : Nat → Reveal α) (H0p H1p h1 : Nat → α) (k : Nat → α × α)
+    (hf0 : ∀ j, j < K - 1 → (P0 j).finish o = .ok (H0p j)) (hf1 : ∀ j, j < K - 1 → (P1 j).finish o = .ok (H1p j))
+    (hk : ∀ j, j < K - 1 → rlkFinish o (H0p j) (H1p j) (h1 j) = .ok (k j)) :
+    GenMp.rlk_finish o K pa ((List.range (K - 1)).map P0) ((List.range (K - 1)).map P1) ((List.range (K - 1)).map h1)
+      = .ok ((List.range (K - 1)).map k) :=
+  genmp_rlk_finish o pa K P0 P1 H0p H1p h1 k hf0 hf1 hk
+
+/-- a missing round-1 message makes `step2` refuse (the completeness assertion of the first unfinished reveal object) -/
+theorem gen_rlk_step2_refuses (o : Ops α) (pa : α → α → R α) (sch : Scheme) (t count pid K : Nat) (s : α) (p : Reveal α)
+    (rest h1d : List (Reveal α)) (u : List α) (tape : Tape α) (hp : p.allSent = false) :
+    GenMp.rlk_step2 o sch t count pid K s pa (p :: rest) h1d u tape = .error .refused := by
+  unfold GenMp.rlk_step2
+  have : GenMp.reveal_finish o pa false p = .error .refused := by
+    rw [genmp_reveal_finish]; unfold Reveal.finish; simp [hp]
+  simp [mapRM, this, bind, Except.bind]
+
+/-- relin protocol, message flow: `receive_step1` / `receive_step2` hand the first |h0| polynomials of a sender's message to the h0
+    objects and the next |h1| to the h1 objects, each into the SENDER's slot (`putSlot`), nothing else changes; `send_step1/2` emit the own
+    polynomials in exactly this order. (Hypotheses: the message has one polynomial per object; the sender id is a valid slot - otherwise
+    the code's index panic, `Reveal.receive` = `.error .oob`.) -/
+theorem gen_rlk_receive_send (sender : Nat) (h0d h1d : List (Reveal α)) (m0 m1 rest : List α)
+    (hl0 : m0.length = h0d.length) (hl1 : m1.length = h1d.length)
+    (hs0 : ∀ p ∈ h0d, sender < p.slots.length) (hs1 : ∀ p ∈ h1d, sender < p.slots.length) :
+    GenMp.rlk_receive_step1 h0d h1d sender (m0 ++ (m1 ++ rest))
+      = .ok (List.zipWith (putSlot sender) h0d m0, List.zipWith (putSlot sender) h1d m1, rest) ∧
+    GenMp.rlk_receive_step2 h0d h1d sender (m0 ++ (m1 ++ rest))
+      = .ok (List.zipWith (putSlot sender) h0d m0, List.zipWith (putSlot sender) h1d m1, rest) ∧
+    GenMp.rlk_send_step1 h0d h1d = h0d.map Reveal.own ++ h1d.map Reveal.own ∧
+    GenMp.rlk_send_step2 h0d h1d = h0d.map Reveal.own ++ h1d.map Reveal.own :=
+  ⟨(genmp_rlk_receive_step1 sender h0d h1d m0 m1 rest hl0 hl1 hs0 hs1).1, (genmp_rlk_receive_step1 sender h0d h1d m0 m1 rest hl0 hl1 hs0 hs1).2,
+   (genmp_rlk_send h0d h1d).1, (genmp_rlk_send h0d h1d).2⟩
+
+/-- the two-polynomial message of the public-key switch: first polynomial to the h0 object, second to the h1 object -/
+theorem gen_pks_receive (p0 p1 : Reveal α) (sender : Nat) (m0 m1 : α) (rest : List α) :
+    GenMp.public_key_switch_receive p0 p1 sender (m0 :: m1 :: rest)
+      = (do let p0' ← p0.receive sender m0; let p1' ← p1.receive sender m1; pure (p0', p1', rest)) ∧
+    GenMp.public_key_switch_send p0 p1 = [p0.own, p1.own] :=
+  ⟨genmp_public_key_switch_receive p0 p1 sender m0 m1 rest, rfl⟩
+
+/-! ### composition: the generated functions, run by n parties over a commutative ring -/
+
+/-- COLLECTIVE DECRYPTION through the generated functions: party i calls `decrypt` (one noise draw e_i) and obtains a reveal object
+    whose message is h_i; ANY party `id` that has fed the messages of all others (any order) to `receive` and calls `finish` hands
+    (c0 + c1·Σs_i) + noise(Σe_i) to the final decoding - the single-party phase for the secret Σ s_i. -/
+theorem gen_collective_decrypt (n : Nat) (sch : Scheme) (t : Nat) (ntt : Bool) (s e : Nat → A) (c0 c1 : A) (pa : A → A → R A) :
+    ∃ h : Nat → A,
+      (∀ i, GenMp.decrypt Ops.ring sch t n i 2 false true ntt (s i) c1 [(.cbd, e i)] = .ok (Reveal.new n i (h i), [])) ∧
+      ∀ id, id < n → ∀ d : List (Nat × A),
+        (∀ x ∈ d, x.1 < n ∧ x.1 ≠ id ∧ x.2 = GenMp.reveal_send (Reveal.new n x.1 (h x.1))) →
+        (∀ j, j < n → j ≠ id → j ∈ d.map Prod.fst) →
+        (do let p ← genRecvAll (Reveal.new n id (h id)) d; GenMp.decrypt_finish Ops.ring c0 c1 pa p)
+          = .ok ((c0 + c1 * ∑ i ∈ range n, s i) + c18_nz sch t (∑ i ∈ range n, e i)) := by
+  obtain ⟨h, hh, hsum⟩ := decrypt_sum n sch t ntt s e c0 c1
+  refine ⟨h, fun i => by rw [genmp_decrypt, hh i]; rfl, fun id hid d hr hall => ?_⟩
+  have hrun := finish_sum n id hid h d hr hall
+  rw [← genmp_run Ops.ring pa] at hrun
+  simp only [genmp_decrypt_finish]
+  cases hq : genRecvAll (Reveal.new n id (h id)) d with
+  | error e => rw [hq] at hrun; cases hrun
+  | ok q =>
+    rw [hq] at hrun
+    simp only [genmp_ok_bind, genmp_reveal_finish] at hrun ⊢
+    rw [hrun, ← hsum]; rfl
+
+/-- COLLECTIVE KEY SWITCH through the generated functions: every party ends with the ciphertext (c0 + Σh_i, c1) whose phase under
+    Σ s'_i is the old phase under Σ s_i plus noise(Σ e_i) -/
+theorem gen_collective_key_switch (n : Nat) (sch : Scheme) (t : Nat) (ntt : Bool) (s s' e : Nat → A) (c0 c1 : A) (pa : A → A → R A) :
+    ∃ h : Nat → A,
+      (∀ i, GenMp.key_switch Ops.ring sch t n i 2 ntt (s i) (s' i) c1 [(.cbd, e i)] = .ok (Reveal.new n i (h i), [])) ∧
+      ∀ id, id < n → ∀ d : List (Nat × A),
+        (∀ x ∈ d, x.1 < n ∧ x.1 ≠ id ∧ x.2 = GenMp.reveal_send (Reveal.new n x.1 (h x.1))) →
+        (∀ j, j < n → j ≠ id → j ∈ d.map Prod.fst) →
+        ∃ c0', (do let p ← genRecvAll (Reveal.new n id (h id)) d; GenMp.key_switch_finish Ops.ring c0 c1 pa p) = .ok (c0', c1) ∧
+          c0' + c1 * (∑ i ∈ range n, s' i) = (c0 + c1 * ∑ i ∈ range n, s i) + c18_nz sch t (∑ i ∈ range n, e i) := by
+  obtain ⟨h, hh, hsum⟩ := keyswitch_sum n sch t ntt s s' e c0 c1
+  refine ⟨h, fun i => by rw [genmp_key_switch, hh i]; rfl, fun id hid d hr hall => ⟨c0 + ∑ i ∈ range n, h i, ?_, hsum⟩⟩
+  have hrun := finish_sum n id hid h d hr hall
+  rw [← genmp_run Ops.ring pa] at hrun
+  simp only [genmp_key_switch_finish]
+  cases hq : genRecvAll (Reveal.new n id (h id)) d with
+  | error e => rw [hq] at hrun; cases hrun
+  | ok q =>
+    rw [hq] at hrun
+    simp only [genmp_ok_bind, genmp_reveal_finish] at hrun ⊢
+    rw [hrun]; rfl
+
+/-- COLLECTIVE PUBLIC-KEY SWITCH through the generated functions: party i draws (u_i, e0_i, e1_i), the message is the PAIR (h0_i, h1_i);
+    any party that has received all other pairs ends with (c0 + Σh0_i, Σh1_i), whose phase under the receiver's secret sk' is the old
+    phase plus u·(p0' + p1'·sk') + E0 + E1·sk' -/
+theorem gen_collective_pks (n : Nat) (sch : Scheme) (t : Nat) (ntt : Bool) (s u e0 e1 : Nat → A) (c0 c1 p0 p1 sk' : A) (pa : A → A → R A) :
+    ∃ h : Nat → A × A,
+      (∀ i, GenMp.public_key_switch Ops.ring sch t n i 2 ntt (s i) c1 p0 p1 [(.ternary, u i), (.cbd, e0 i), (.cbd, e1 i)]
+              = .ok (Reveal.new n i (h i).1, Reveal.new n i (h i).2, [])) ∧
+      ∀ id, id < n → ∀ d0 d1 : List (Nat × A),
+        (∀ x ∈ d0, x.1 < n ∧ x.1 ≠ id ∧ x.2 = (h x.1).1) → (∀ j, j < n → j ≠ id → j ∈ d0.map Prod.fst) →
+        (∀ x ∈ d1, x.1 < n ∧ x.1 ≠ id ∧ x.2 = (h x.1).2) → (∀ j, j < n → j ≠ id → j ∈ d1.map Prod.fst) →
+        ∃ c0' c1', (do let q0 ← genRecvAll (Reveal.new n id (h id).1) d0
+                       let q1 ← genRecvAll (Reveal.new n id (h id).2) d1
+                       GenMp.public_key_switch_finish Ops.ring c0 c1 pa q0 q1) = .ok (c0', c1') ∧
+          c0' + c1' * sk' = (c0 + c1 * ∑ i ∈ range n, s i) + (∑ i ∈ range n, u i) * (p0 + p1 * sk')
+              + c18_nz sch t (∑ i ∈ range n, e0 i) + c18_nz sch t (∑ i ∈ range n, e1 i) * sk' := by
+  obtain ⟨h, hh, hsum⟩ := pks_sum n sch t ntt s u e0 e1 c0 c1 p0 p1 sk'
+  refine ⟨h, fun i => by rw [genmp_public_key_switch, hh i]; rfl, fun id hid d0 d1 hr0 ha0 hr1 ha1 =>
+    ⟨c0 + ∑ i ∈ range n, (h i).1, ∑ i ∈ range n, (h i).2, ?_, hsum⟩⟩
+  have hrun0 := finish_sum n id hid (fun i => (h i).1) d0 hr0 ha0
+  have hrun1 := finish_sum n id hid (fun i => (h i).2) d1 hr1 ha1
+  rw [← genmp_run Ops.ring pa] at hrun0 hrun1
+  simp only [genmp_public_key_switch_finish]
+  cases hq0 : genRecvAll (Reveal.new n id (h id).1) d0 with
+  | error e => rw [hq0] at hrun0; cases hrun0
+  | ok q0 =>
+    cases hq1 : genRecvAll (Reveal.new n id (h id).2) d1 with
+    | error e => rw [hq1] at hrun1; cases hrun1
+    | ok q1 =>
+      rw [hq0] at hrun0; rw [hq1] at hrun1
+      simp only [genmp_ok_bind, genmp_reveal_finish] at hrun0 hrun1 ⊢
+      rw [hrun0, hrun1]; rfl
+
+/-- COLLECTIVE PUBLIC KEY through the generated `generate_public_key` / `finish` (the generator call is an opaque step whose reading
+    k0_i = `pkShare (s_i, a, e_i)`, k1 = a is the hypothesis `hk`): the object broadcasts k0_i, and every party that has received all
+    other shares ends with the key (Σ k0_i, a) = the single-party key for the secret Σ s_i with noise Σ e_i -/
+theorem gen_collective_pk (n : Nat) (sch : Scheme) (t : Nat) (s e : Nat → A) (a : A) (k0 : Nat → A) (pa : A → A → R A)
+    (hk : ∀ i, pkShare Ops.ring sch t (s i) a (e i) = .ok (k0 i)) :
+    ∀ id, id < n → ∀ d : List (Nat × A),
+      (∀ x ∈ d, x.1 < n ∧ x.1 ≠ id ∧ x.2 = GenMp.reveal_send (GenMp.generate_public_key n x.1 (k0 x.1) a).1) →
+      (∀ j, j < n → j ≠ id → j ∈ d.map Prod.fst) →
+      ∃ p0, (do let q ← genRecvAll (GenMp.generate_public_key n id (k0 id) a).1 d
+                GenMp.public_key_finish Ops.ring (GenMp.generate_public_key n id (k0 id) a).2.1 (GenMp.generate_public_key n id (k0 id) a).2.2 pa q)
+              = .ok (p0, a) ∧
+        pkShare Ops.ring sch t (∑ i ∈ range n, s i) a (∑ i ∈ range n, e i) = .ok p0 ∧
+        p0 + a * (∑ i ∈ range n, s i) = - c18_nz sch t (∑ i ∈ range n, e i) := by
+  intro id hid d hr hall
+  obtain ⟨p0, h1, h2, h3⟩ := collective_pk n sch t s e a
+  have hp : ∀ i, p0 i = k0 i := fun i => by have := h1 i; rw [hk i] at this; exact (Except.ok.inj this).symm
+  refine ⟨∑ i ∈ range n, p0 i, ?_, h2, h3⟩
+  have hrun := finish_sum n id hid k0 d hr hall
+  rw [← genmp_run Ops.ring pa] at hrun
+  simp only [genmp_public_key_finish, GenMp.generate_public_key]
+  have hnew : (⟨id, k0 id, List.replicate n none⟩ : Reveal A) = Reveal.new n id (k0 id) := rfl
+  rw [hnew]
+  cases hq : genRecvAll (Reveal.new n id (k0 id)) d with
+  | error e => rw [hq] at hrun; cases hrun
+  | ok q =>
+    rw [hq] at hrun
+    simp only [genmp_ok_bind, genmp_reveal_finish] at hrun ⊢
+    rw [hrun, Finset.sum_congr rfl (fun i _ => hp i)]; rfl
+
+/-- COLLECTIVE RELINEARISATION KEY through the generated `new` / `step2` / `finish` (n parties, K key primes, K-1 decomposition indices;
+    common tape = a_0 … a_{K-2}, party i's own tape = (u_ij, e0_ij, e1_ij)_j then (e2_ij, e3_ij)_j; `R0 j`, `R1 j`, `P0 j`, `P1 j` are the
+    reveal objects after the deliveries - by `gen_run` + `finish_sum` they finish with the sums over all parties, which is all that is
+    assumed about them): all three generated functions succeed, and the assembled key j satisfies
+        k0_j + k1_j·s = s²·w_j + ( s·E0_j + u_j·E1_j + E2_j + E3_j ),   s = Σ s_i, u_j = Σ u_ij, E·_j = noise(Σ_i e·_ij) -/
+theorem gen_collective_rlk (n K : Nat) (sch : Scheme) (t : Nat) (s w a : Nat → A) (u e0 e1 e2 e3 : Nat → Nat → A) (pa : A → A → R A) :
+    ∃ (r1 r2 : Nat → Nat → A × A) (k : Nat → A × A),
+      (∀ i, GenMp.rlk_new Ops.ring sch t n i K (s i) w
+              (tapeRem (fun j => [(.uniform, a j)]) [] (K - 1) 0)
+              (tapeRem (fun j => [(.ternary, u i j), (.cbd, e0 i j), (.cbd, e1 i j)]) [] (K - 1) 0)
+            = .ok ((List.range (K - 1)).map (fun j => Reveal.new n i (r1 j i).1),
+                   (List.range (K - 1)).map (fun j => Reveal.new n i (r1 j i).2),
+                   (List.range (K - 1)).map (fun j => (Ops.ring (α := A)).toNtt (u i j)), [], [])) ∧
+      (∀ i (R0 R1 : Nat → Reveal A),
+          (∀ j, j < K - 1 → (R0 j).finish Ops.ring = .ok (∑ x ∈ range n, (r1 j x).1)) →
+          (∀ j, j < K - 1 → (R1 j).finish Ops.ring = .ok (∑ x ∈ range n, (r1 j x).2)) →
+          GenMp.rlk_step2 Ops.ring sch t n i K (s i) pa ((List.range (K - 1)).map R0) ((List.range (K - 1)).map R1)
+              ((List.range (K - 1)).map (fun j => (Ops.ring (α := A)).toNtt (u i j)))
+              (tapeRem (fun j => [(.cbd, e2 i j), (.cbd, e3 i j)]) [] (K - 1) 0)
+            = .ok ((List.range (K - 1)).map (fun j => Reveal.new n i (r2 j i).1),
+                   (List.range (K - 1)).map (fun j => Reveal.new n i (r2 j i).2),
+                   (List.range (K - 1)).map (fun j => u i j - s i),
+                   (List.range (K - 1)).map (fun j => ∑ x ∈ range n, (r1 j x).2), [])) ∧
+      (∀ (P0 P1 : Nat → Reveal A),
+          (∀ j, j < K - 1 → (P0 j).finish Ops.ring = .ok (∑ x ∈ range n, (r2 j x).1)) →
+          (∀ j, j < K - 1 → (P1 j).finish Ops.ring = .ok (∑ x ∈ range n, (r2 j x).2)) →
+          GenMp.rlk_finish Ops.ring K pa ((List.range (K - 1)).map P0) ((List.range (K - 1)).map P1)
+              ((List.range (K - 1)).map (fun j => ∑ x ∈ range n, (r1 j x).2))
+            = .ok ((List.range (K - 1)).map k)) ∧
+      ∀ j, (k j).1 + (k j).2 * (∑ i ∈ range n, s i)
+        = (∑ i ∈ range n, s i) * (∑ i ∈ range n, s i) * w j
+          + ((∑ i ∈ range n, s i) * c18_nz sch t (∑ i ∈ range n, e0 i j) + (∑ i ∈ range n, u i j) * c18_nz sch t (∑ i ∈ range n, e1 i j)
+             + c18_nz sch t (∑ i ∈ range n, e2 i j) + c18_nz sch t (∑ i ∈ range n, e3 i j)) := by
+  have H := fun j => collective_rlk n sch t s (fun i => u i j) (fun i => e0 i j) (fun i => e1 i j) (fun i => e2 i j) (fun i => e3 i j) (a j) (w j)
+  choose r1 r2 k h1 h2 h3 h4 using H
+  refine ⟨r1, r2, k, fun i => ?_, fun i R0 R1 hf0 hf1 => ?_, fun P0 P1 hf0 hf1 => ?_, h4⟩
+  · exact gen_rlk_new Ops.ring sch t n i K (s i) w a (u i) (e0 i) (e1 i) (fun j => r1 j i) [] [] (fun j _ => h1 j i)
+  · exact gen_rlk_step2 Ops.ring pa sch t n i K (s i) (u i) (e2 i) (e3 i) _ _ (fun j => u i j - s i) R0 R1 (fun j => r2 j i) [] hf0 hf1
+      (fun j _ => rfl) (fun j _ => h2 j i)
+  · exact gen_rlk_finish Ops.ring pa K P0 P1 _ _ _ k hf0 hf1 (fun j _ => h3 j)
+
+/-- non-vacuity of the generated-function theorems: two parties over ℤ (BFV reading: noise added as is), c = (100, 7), secrets 2 and 3,
+    noises 1 and -1: both constructors succeed, party 0 after receiving party 1's message hands 100 + 7·5 + 0 = 135 to the decoder;
+    without the message `finish` refuses -/
+example :
+    GenMp.decrypt (Ops.ring (α := ℤ)) .bfv 5 2 0 2 false true true 2 7 [(.cbd, 1)] = .ok (Reveal.new 2 0 15, []) ∧
+    GenMp.decrypt (Ops.ring (α := ℤ)) .bfv 5 2 1 2 false true true 3 7 [(.cbd, -1)] = .ok (Reveal.new 2 1 20, []) ∧
+    (do let p ← genRecvAll (Reveal.new 2 0 (15 : ℤ)) [(1, 20)]; GenMp.decrypt_finish Ops.ring 100 7 (fun a b => .ok (a + b)) p) = .ok 135 ∧
+    (do let p ← genRecvAll (Reveal.new 2 0 (15 : ℤ)) []; GenMp.decrypt_finish Ops.ring 100 7 (fun a b => .ok (a + b)) p) = .error .refused ∧
+    GenMp.decrypt (Ops.ring (α := ℤ)) .bfv 5 2 0 2 false true true 2 7 [(.ternary, 1)] = .error .other :=
+  ⟨rfl, rfl, rfl, rfl, rfl⟩
+
+/-- non-vacuity (relinearisation key, one party over ℤ, K = 3 key primes = 2 decomposition indices, w_j = j+1): the common tape must
+    hold TWO uniform polynomials (3 and 4), the own tape (u, e0, e1) twice; h0_j = -(u_j·a_j) + s·w_j + e0_j, h1_j = s·a_j + e1_j.
+    A common tape with one polynomial only is an error (the code draws a fresh a_j per index). -/
+example :
+    GenMp.rlk_new (Ops.ring (α := ℤ)) .bfv 5 1 0 3 2 (fun j => (j : ℤ) + 1)
+        [(.uniform, 3), (.uniform, 4)] [(.ternary, 1), (.cbd, 0), (.cbd, 1), (.ternary, -1), (.cbd, 1), (.cbd, 0)]
+      = .ok ([Reveal.new 1 0 (-1), Reveal.new 1 0 9], [Reveal.new 1 0 7, Reveal.new 1 0 8], [1, -1], [], []) ∧
+    GenMp.rlk_new (Ops.ring (α := ℤ)) .bfv 5 1 0 3 2 (fun j => (j : ℤ) + 1)
+        [(.uniform, 3)] [(.ternary, 1), (.cbd, 0), (.cbd, 1), (.ternary, -1), (.cbd, 1), (.cbd, 0)] = .error .other :=
+  ⟨rfl, rfl⟩
 
 end HC.C18
